@@ -1087,6 +1087,7 @@ hwloc_backends_disable_all(struct hwloc_topology *topology)
     topology->backends = next;
   }
   topology->backends = NULL;
+  topology->backend_phases = 0;
   topology->backend_excluded_phases = 0;
 }
 
